@@ -1,6 +1,7 @@
 package rules
 
 import (
+	"go/types"
 	"fmt"
 	"go/token"
 	"strings"
@@ -871,4 +872,106 @@ func c11Splice(c *Ctx) {
 		}
 	}
 	r.Floor("C11.7", 3)
+}
+
+// ---- C11.8: published events are shared between subscribers. No function of the
+// stream package (nor an event payload method in package state) may write into
+// the backing array of an event slice it was handed: neither by storing to an
+// element nor by the in-place filter idiom (x[:0] followed by append).
+func c11SharedEventsImmutable(c *Ctx) {
+	p, r := c.P, c.R
+	isEventSlice := func(t types.Type) bool {
+		sl, ok := t.Underlying().(*types.Slice)
+		if !ok {
+			return false
+		}
+		nt := core.NamedOf(sl.Elem())
+		return nt != nil && nt.Obj().Name() == "Event" && nt.Obj().Pkg() != nil && strings.HasSuffix(nt.Obj().Pkg().Path(), "/"+streamPkg)
+	}
+	local := func(v ssa.Value) bool {
+		// built in this function (make / literal / append chain rooted at one of those or nil)
+		seen := map[ssa.Value]bool{}
+		var visit func(v ssa.Value) bool
+		visit = func(v ssa.Value) bool {
+			if seen[v] {
+				return true
+			}
+			seen[v] = true
+			switch x := v.(type) {
+			case *ssa.MakeSlice:
+				return true
+			case *ssa.Const:
+				return true // nil
+			case *ssa.Slice:
+				if al, ok := x.X.(*ssa.Alloc); ok {
+					_ = al
+					return true // array literal
+				}
+				return visit(x.X)
+			case *ssa.Phi:
+				for _, e := range x.Edges {
+					if !visit(e) {
+						return false
+					}
+				}
+				return true
+			case *ssa.Call:
+				if bi, ok := x.Call.Value.(*ssa.Builtin); ok && bi.Name() == "append" {
+					return visit(x.Call.Args[0])
+				}
+				return false
+			}
+			return false
+		}
+		return visit(v)
+	}
+	n := 0
+	nFns := 0
+	for _, rel := range []string{streamPkg, statePkg} {
+		for _, f := range p.SrcFuncs(rel) {
+			if rel == statePkg && !(f.Signature.Recv() != nil && strings.HasPrefix(core.ShortType(f.Signature.Recv().Type()), "state.EventPayload")) {
+				continue
+			}
+			nFns++
+			for _, b := range f.Blocks {
+				for _, in := range b.Instrs {
+					bad := ""
+					switch x := in.(type) {
+					case *ssa.Store:
+						if ia, ok := x.Addr.(*ssa.IndexAddr); ok && isEventSlice(ia.X.Type()) && !local(ia.X) {
+							bad = "an element of an event slice handed to this function is overwritten"
+						}
+					case *ssa.Call:
+						if bi, ok := x.Call.Value.(*ssa.Builtin); ok && bi.Name() == "append" && isEventSlice(x.Type()) {
+							// appending to a zero-length reslice of somebody else's slice
+							if sl, ok := x.Call.Args[0].(*ssa.Slice); ok && !local(sl.X) {
+								if k, ok := core.ConstInt(sl.High); ok && k == 0 {
+									bad = "in-place filter: append onto x[:0] of an event slice handed to this function overwrites its elements"
+								}
+							}
+							if phi, ok := x.Call.Args[0].(*ssa.Phi); ok {
+								for _, e := range phi.Edges {
+									if sl, ok := e.(*ssa.Slice); ok && !local(sl.X) {
+										if k, ok := core.ConstInt(sl.High); ok && k == 0 {
+											bad = "in-place filter: append onto x[:0] of an event slice handed to this function overwrites its elements"
+										}
+									}
+								}
+							}
+						}
+					}
+					if bad != "" {
+						n++
+						r.Violate("C11.8", core.FuncName(f), p.Pos(in.Pos()), bad+": the slice is the batch held in the shared topic buffer (and in cached snapshots), so what one subscriber's token may not see is removed — and another event duplicated — for every other subscriber reading that buffer item")
+					}
+				}
+			}
+		}
+	}
+	if n == 0 {
+		r.Hold("C11.8", "stream", "", fmt.Sprintf("%d functions: no write into an event slice that was handed in", nFns))
+	}
+	if nFns < 60 {
+		r.MissingInstance("C11.8", "<functions>", fmt.Sprintf("only %d functions", nFns))
+	}
 }
